@@ -46,6 +46,7 @@ var PayloadValues = map[string]string{
 	"eq": "mode=fast;level=3", "dollar": "$HOME and ${PATH} stay literal", "bslash": `C:\dir\n not a newline`, "utf8": "Größe ≥ 5 € ✓", "empty": "",
 	"eqstart": "=leading equals", "long4096": strings.Repeat("x", 4096), "long70000": strings.Repeat("0123456789", 7000),
 }
+
 // payloads that survive word splitting on a command line unchanged
 var argSafe = map[string]bool{"word": true, "eq": true, "eqstart": true, "long4096": true}
 
